@@ -573,7 +573,7 @@ class ExprMixin:
             if v.name in self.repo.modules:
                 return self.module_name(self.repo.modules[v.name], name)
             return self.external(v.name, name)
-        if isinstance(v, (PyDict, PyList, PyTuple, KSetV, MapV, SeqV, HeapMap, LockV, Partial, ArrDict, HeapListRef)) or type(v).__name__ in ('LoggerV', 'RegexV', 'MapKeys') or (isinstance(v, Sym) and v.kind in ("opt", "key")) \
+        if isinstance(v, (PyDict, PyList, PyTuple, KSetV, MapV, SeqV, HeapMap, LockV, Partial, ArrDict, HeapListRef)) or type(v).__name__ in ('LoggerV', 'RegexV', 'MapKeys', 'JsonText') or (isinstance(v, Sym) and v.kind in ("opt", "key")) \
                 or isinstance(v, str):
             return Builtin_valmethod(v, name)
         if isinstance(v, PyFunc):
